@@ -84,7 +84,10 @@ def generate(rng, seed, part):
             else:
                 mb = (5 if ndim == 1 else 3) if not bulk else {1: 250, 2: 30, 3: 10}[ndim]
                 axes.append(build.gen_axis(rng, max_bins=mb, min_bins=1 if not bulk else mb // 2,
-                                           families=[f for f in fams if f != "adaptive"], scaled=0.08))
+                                           families=[f for f in fams if f != "adaptive"],
+                                           # (members of a collection may be made adaptive below: a value one unit
+                                           # outside bins of magnitude 1e-9 would mean 1e9 new bins)
+                                           scaled=0.08 if klass != "collection" else 0.0))
         wkind = rng.choice(["none", "none", "int", "dyadic", "float", "tiny"])
         cfg.update({"ndim": ndim, "axes": axes, "weights": wkind,
                     "dtype": build.pick_dtype(rng, "float" if wkind == "tiny" else wkind),
@@ -191,6 +194,11 @@ def make_node(cfg, entries):
             mh = Histogram1D(build.make_binning(spec), name=f"m{m}",
                              **({"dtype": np.dtype(cfg["dtype"])} if cfg["dtype"] else {}))
             sel = [k for k in range(len(idx)) if k % cfg["members"] == m]
+            if sel and mh.is_adaptive():
+                # bounded growth: an adaptive member only receives values within 200 bin widths of its bins
+                b_ = np.asarray(mh.bins, dtype=float)
+                w_ = float(b_[0, 1] - b_[0, 0])
+                sel = [k for k in sel if b_[0, 0] - 200 * w_ <= data[k, 0] <= b_[-1, 1] + 200 * w_]
             if sel:
                 mh.fill_n(data[sel, 0], **({} if weights is None else {"weights": weights[sel]}))
             members.append(mh)
